@@ -24,8 +24,8 @@ from hplsim import build, core, gen, seams, simio
 PROP = 'C19'
 
 TIERS = {
-    'quick': dict(runs=224, wall=80, sweep_max=16, pairs=3),
-    'thorough': dict(runs=24000, wall=1500, sweep_max=60, pairs=8),
+    'quick': dict(runs=224, wall=160, sweep_max=16, pairs=3),
+    'thorough': dict(runs=6000, wall=2400, sweep_max=60, pairs=8),
 }
 
 ###############################################################################
@@ -163,7 +163,7 @@ def gen_scenario(seed, cfg):
     if mode == 'inline':
         text = _valid_property(sim)
     else:
-        text = '\n'.join(_valid_property(sim) for _ in range(sim.weighted('nprops', [(3, 1), (3, 2), (2, 3), (1, 6)])))
+        text = '\n'.join(_valid_property(sim) for _ in range(sim.weighted('nprops', [(3, 1), (3, 2), (2, 3), (1, 6), (0.3, 10)])))
         if '\n' in text and sim.coin('dupprop', 0.15):
             # the same property twice, or a near-duplicate of it
             first = _valid_property(sim)
@@ -177,10 +177,12 @@ def gen_scenario(seed, cfg):
             text, content_kind = 'globally: no', 'syntax'
     path_kind = 'regular'
     raw_bytes = None
+    decoy = None
     if mode == 'file':
         path_kind = sim.weighted('pathkind', [(7, 'regular'), (1, 'missing'), (1, 'directory'), (1.5, 'symlink'),
                                               (0.7, 'symlink_loop'), (0.8, 'bad_utf8'), (0.5, 'relative'),
-                                              (0.5, 'dangling_symlink'), (0.5, 'symlink_to_dir'), (0.4, 'bom')])
+                                              (0.5, 'dangling_symlink'), (0.5, 'symlink_to_dir'), (0.4, 'bom'),
+                                              (0.8, 'dotdot_via_symlink'), (0.4, 'dotdot_plain'), (0.3, 'dotdot_via_missing')])
         if path_kind == 'bad_utf8':
             b = text.encode()
             pos = sim.choose('badpos', len(b) + 1)
@@ -192,12 +194,14 @@ def gen_scenario(seed, cfg):
             raw_bytes = list(b[:pos] + bytes([sim.pick('badbyte', (0xff, 0xc3, 0x80, 0xfe))]) + b[pos:])
         if path_kind == 'bom':
             raw_bytes = list(b'\xef\xbb\xbf' + text.encode())
+        if path_kind == 'dotdot_via_symlink':
+            decoy = sim.pick('decoy', (None, 'globally: no other_topic', 'globally: no', ''))
     if mode == 'inline' and '"' in text and sim.coin('surrogate', 0.08):
         # an argument that was not valid UTF-8 on the command line: argv is decoded with
         # surrogateescape, so the text holds a lone surrogate inside a string
         q = text.index('"')
         text = text[:q + 1] + '\udcff' + text[q + 1:]
-    sc = {'seed': seed, 'mode': mode, 'json': as_json, 'text': text, 'content_kind': content_kind,
+    sc = {'seed': seed, 'mode': mode, 'json': as_json, 'text': text, 'content_kind': content_kind, 'decoy': decoy,
           'path_kind': path_kind, 'raw_bytes': raw_bytes,
           'out_buffer': sim.pick('outbuf', (0, 16, 64, 512, 8192, 8192)),
           'out_encoding': sim.weighted('outenc', [(5, ['utf-8', 'strict']), (1.5, ['ascii', 'strict']), (1, ['latin-1', 'strict']),
@@ -216,6 +220,28 @@ def setup_files(sc, root):
     pk = sc['path_kind']
     p = os.path.join(root, 'spec.hpl')
     data = bytes(sc['raw_bytes']) if sc.get('raw_bytes') is not None else sc['text'].encode('utf-8', 'surrogateescape')
+    if pk == 'dotdot_via_symlink':
+        # deployment-style layout: `current` -> releases/v2, the file lives in releases/, the argument
+        # is current/../spec.hpl (the OS follows the link first, THEN goes up); a decoy with other
+        # content sits where a textual collapse of `..` would look
+        os.makedirs(os.path.join(root, 'releases', 'v2'))
+        os.symlink(os.path.join('releases', 'v2'), os.path.join(root, 'current'))
+        with open(os.path.join(root, 'releases', 'spec.hpl'), 'wb') as f:
+            f.write(data)
+        decoy = sc.get('decoy')
+        if decoy is not None:
+            with open(p, 'wb') as f:
+                f.write(decoy.encode('utf-8'))
+        return os.path.join(root, 'current', '..', 'spec.hpl')
+    if pk == 'dotdot_plain':
+        os.mkdir(os.path.join(root, 'sub'))
+        with open(p, 'wb') as f:
+            f.write(data)
+        return os.path.join(root, 'sub', '..', 'spec.hpl')
+    if pk == 'dotdot_via_missing':
+        with open(p, 'wb') as f:
+            f.write(data)
+        return os.path.join(root, 'nosuchdir', '..', 'spec.hpl')  # ENOENT for the OS
     if pk == 'dangling_symlink':
         os.symlink(os.path.join(root, 'gone.hpl'), p)
         return p
@@ -642,7 +668,7 @@ def worker(job):
     t0 = time.monotonic()
     prep()
     for idx in job['indices']:
-        if time.monotonic() - t0 > job['wall']:
+        if time.monotonic() > job['deadline']:  # one deadline for the whole batch (CLOCK_MONOTONIC is system-wide)
             stats['runs_skipped_for_time'] = stats.get('runs_skipped_for_time', 0) + 1
             continue
         seed = core.derive(job['master'], PROP, idx)
@@ -822,7 +848,7 @@ def main(argv):
     nruns = max(16, int(cfg['runs'] * scale))
     nproc = int(os.environ.get('HPLSIM_NPROC', '0')) or min(16, os.cpu_count() or 1)
     indices = list(range(args.offset, args.offset + nruns))
-    jobs = [{'cfg': cfg, 'indices': ch, 'master': master, 'wall': cfg['wall']} for ch in core.chunk(indices, nproc * 3)]
+    jobs = [{'cfg': cfg, 'indices': ch, 'master': master, 'deadline': time.monotonic() + cfg['wall']} for ch in core.chunk(indices, nproc * 3)]
     results = core.run_pool(worker, jobs, nproc=nproc, wall_cap=cfg['wall'] + 240)
     stats, found, samples, digests, distinct = {}, [], [], [], 0
     for r in results:
